@@ -52,6 +52,25 @@ func genC20(r *simrt.RNG, tier string, variant int) Plan {
 		}
 		p.Ops = append(p.Ops, op)
 	}
+	if p.Clients[0].Kind == "ws" && r.Bool(0.2) {
+		// a retry-tagged reader call issued while the connection is down: it is
+		// retried after the reconnect and must still deliver its bytes exactly
+		p.Family = "retry-outage"
+		p.Faults = []Fault{{Kind: "rst", Pipe: 0, Dir: "s2c", Frame: -1}}
+		for i := range p.Ops {
+			if p.Ops[i].N == 4 {
+				p.Ops[i].N = 0
+			}
+			p.Ops[i].Kind, p.Ops[i].Phase = "reader-retry", 1
+		}
+	} else if r.Bool(0.3) {
+		// two reader-enabled servers in one process; calls alternate between them
+		p.Servers = append(p.Servers, ServerPlan{Addr: "srv1:1", PingNs: -1})
+		p.Clients = append(p.Clients, ClientPlan{Name: "B", Kind: p.Clients[0].Kind, Server: 1})
+		for i := range p.Ops {
+			p.Ops[i].Client = i % 2
+		}
+	}
 	// TCP flow control on the upload connection: bodies beyond the window are
 	// only partly in flight until the handler reads
 	p.Params["window"] = Pick(r, []int64{0, 16384, 262144})
@@ -80,31 +99,54 @@ func runC20(e *Env, p *Plan) {
 	dt := &http.Transport{DialContext: e.N.Dialer(false), DisableKeepAlives: true}
 	http.DefaultTransport = dt
 	defer func() { http.DefaultTransport = oldDT }()
-	srv := e.NewServer(p.Servers[0].Addr, ServerOpts{PingInterval: 0, Extra: []jsonrpc.ServerOption{dec}, Mux: func(mux *http.ServeMux) {
-		mux.HandleFunc("/rd/", func(w http.ResponseWriter, r *http.Request) {
-			rec.mu.Lock()
-			rec.started++
-			rec.mu.Unlock()
-			sw := &statusWriter{ResponseWriter: w, code: 200}
-			rh(sw, r)
-			rec.mu.Lock()
-			rec.finished++
-			rec.statuses = append(rec.statuses, sw.code)
-			rec.mu.Unlock()
-		})
-	}})
-	c, err := e.NewClient("A", srv, ClientOpts{Kind: p.Clients[0].Kind, Ping: 0,
-		Extra: []jsonrpc.Option{httpio.ReaderParamEncoder("http://" + srv.Addr + "/rd")}})
-	if err != nil {
-		e.Violate("setup", "client: %v", err)
-		return
+	_, _ = rh, dec
+	w := &World{E: e, P: p}
+	for _, sp := range p.Servers {
+		rh, dec := httpio.ReaderParamDecoder() // every server has its own rendezvous table
+		srv := e.NewServer(sp.Addr, ServerOpts{PingInterval: 0, Extra: []jsonrpc.ServerOption{dec}, Mux: func(mux *http.ServeMux) {
+			mux.HandleFunc("/rd/", func(w http.ResponseWriter, r *http.Request) {
+				rec.mu.Lock()
+				rec.started++
+				rec.mu.Unlock()
+				sw := &statusWriter{ResponseWriter: w, code: 200}
+				rh(sw, r)
+				rec.mu.Lock()
+				rec.finished++
+				rec.statuses = append(rec.statuses, sw.code)
+				rec.mu.Unlock()
+			})
+		}})
+		w.Servers = append(w.Servers, srv)
 	}
-	w := &World{E: e, P: p, Servers: []*Server{srv}, Clients: []*Client{c}}
+	for _, cp := range p.Clients {
+		srv := w.Servers[cp.Server]
+		c, err := e.NewClient(cp.Name, srv, ClientOpts{Kind: cp.Kind, Ping: 0, BackoffMin: int64(5e6), BackoffMax: int64(20e6),
+			Extra: []jsonrpc.Option{httpio.ReaderParamEncoder("http://" + srv.Addr + "/rd")}})
+		if err != nil {
+			e.Violate("setup", "client: %v", err)
+			return
+		}
+		w.Clients = append(w.Clients, c)
+	}
+	srv := w.Servers[0]
+	_ = srv
+	if p.Family == "retry-outage" && len(p.Faults) > 0 {
+		// cut the RPC connection, then issue the retry-tagged calls inside the outage
+		e.N.RefuseNext(p.Servers[0].Addr, 2)
+		e.N.Inject(0, "rst", "both", 0)
+		e.Probe("reader-call-retried-after-outage")
+	}
 	for _, op := range p.Ops {
 		w.Start(op, nil)
 	}
 	if !e.S.Settle(40 * time.Second) {
 		return
+	}
+	if p.Family == "retry-outage" {
+		// the method-retry back-off (100 ms * 1.5^n) needs some fake time
+		if !e.S.Settle(2 * time.Minute) {
+			return
+		}
 	}
 	w.CheckAllReturned("C20.call-returns")
 	for _, op := range p.Ops {
